@@ -114,7 +114,7 @@ func runMutants(id, repo, root string) *sensitivity {
 	// reports already present on the unmutated tree do not count as detections
 	baseline := map[string]bool{}
 	{
-		cmd := exec.Command(self, "-property", id, "-tier", "quick", "-repo", repo, "-root", root, "-no-evidence")
+		cmd := exec.Command(self, "-property", id, "-tier", "quick", "-repo", repo, "-root", root, "-no-evidence", "-whole")
 		cmd.Env = os.Environ()
 		out, _ := cmd.CombinedOutput()
 		for _, l := range strings.Split(string(out), "\n") {
@@ -151,7 +151,7 @@ func runMutants(id, repo, root string) *sensitivity {
 			} else if out, err := exec.Command("git", "-C", dir, "apply", "--whitespace=nowarn", m.patch).CombinedOutput(); err != nil {
 				status = "skipped: patch does not apply to the current tree: " + firstLine(string(out))
 			} else {
-				cmd := exec.Command(self, "-property", id, "-tier", "quick", "-repo", dir, "-root", root, "-no-evidence")
+				cmd := exec.Command(self, "-property", id, "-tier", "quick", "-repo", dir, "-root", root, "-no-evidence", "-whole")
 				cmd.Env = os.Environ()
 				out, _ := cmd.CombinedOutput()
 				var hits []string
@@ -208,7 +208,7 @@ func runRefactorings(id, repo, root string) map[string]any {
 		return nil
 	}
 	reportsOf := func(dir string) (map[string]string, string) {
-		cmd := exec.Command(self, "-property", id, "-tier", "quick", "-repo", dir, "-root", root, "-no-evidence")
+		cmd := exec.Command(self, "-property", id, "-tier", "quick", "-repo", dir, "-root", root, "-no-evidence", "-whole")
 		cmd.Env = os.Environ()
 		out, _ := cmd.CombinedOutput()
 		m := map[string]string{}
